@@ -12,6 +12,7 @@ import (
 	"fmt"
 	"io"
 	"regexp"
+	"runtime/debug"
 	"strings"
 	"time"
 
@@ -303,6 +304,23 @@ func refWalkCalls(m *sysl.Module, start epRef, bb map[string]bool) []arrow {
 	return out
 }
 
+// c13BudgetLabeler is the stock labeler plus a step budget: the largest diagram of these 3- and 4-endpoint
+// models has a few hundred arrows, so a generation that labels 20000 calls is not going to terminate; the
+// panic turns it into an ordinary violation (non-termination) instead of minutes of stack growth.
+type c13BudgetLabeler struct {
+	cmdutils.Labeler
+	calls, budget int
+}
+
+const c13Runaway = "C13: call budget exhausted (runaway recursion)"
+
+func (l *c13BudgetLabeler) LabelEndpoint(p *cmdutils.EndpointLabelerParam) string {
+	if l.calls++; l.calls > l.budget {
+		panic(c13Runaway)
+	}
+	return l.Labeler.LabelEndpoint(p)
+}
+
 func genSeq(m *sysl.Module, start string, bb map[string]*cmdutils.Upto, group string, more ...string) (out string, err error, crash string) {
 	defer func() {
 		if r := recover(); r != nil {
@@ -311,7 +329,7 @@ func genSeq(m *sysl.Module, start string, bb map[string]*cmdutils.Upto, group st
 	}()
 	lg := logrus.New()
 	lg.SetOutput(io.Discard)
-	l := &cmdutils.Labeler{}
+	l := &c13BudgetLabeler{budget: 20000}
 	p := &sequencediagram.SequenceDiagParam{Endpoints: append([]string{start}, more...), Blackboxes: bb, Group: group}
 	if bb == nil && len(more) > 0 {
 		p.Blackboxes = map[string]*cmdutils.Upto{} // the collection registers the other starts here
@@ -327,6 +345,10 @@ func (c13) Run(c core.Case) core.Outcome {
 	_ = json.Unmarshal(c.Data, &cs)
 	var o core.Outcome
 	o.Class = "ok"
+	// "terminates": the models have at most 4 endpoints, so a visitor that is still recursing at a 64 MB
+	// stack is not going to stop; the fatal stack overflow ends the worker and is reported as a crash
+	// long before the default 1 GB limit (and the memory that goes with it) is reached.
+	debug.SetMaxStack(64 << 20)
 	n := len(cs.Dist)
 	bodies := c13Bodies(cs.Dist, n == 4)
 	// compile every (endpoint, body) once
@@ -416,6 +438,9 @@ func (c13) Run(c core.Case) core.Outcome {
 					d, _ := json.Marshal(map[string]interface{}{"diagram": out, "bodies": idx})
 					o.Detail = d
 					return false
+				}
+				if crash == c13Runaway {
+					return fail("non-termination", "generation labelled more than 20000 calls on a model whose call tree has at most a few hundred: runaway recursion")
 				}
 				if crash != "" {
 					return fail("crash|"+core.MaskMsg(crash), "generation panicked: "+crash)
